@@ -157,6 +157,8 @@ def run_neg(sh, ctx):
 		order = list(range(n)); rng.shuffle(order)
 		# each genome's signature dropped in turn
 		for gi in range(n):
+			if n == 1 and not w.extra:
+				continue   # a signature file without any signature cannot be written at all
 			d = ctx.workdir / f'n{wi}_drop{gi}'
 			w.write_db(d, sig_order=order, id_attr=id_attr, drop_sig_of=gi)
 			expect_load_failure(ctx, d, 'dropped-signature', dict(id_attr=id_attr, dropped=gi, n=n))
@@ -284,6 +286,8 @@ def run_cli(sh, ctx):
 					break
 		# negative through the CLI: a dropped signature must give a non-zero exit
 		from vf import clidrv
+		if n == 1 and not w.extra:
+			continue   # dropping the only signature would leave a file that cannot be written at all
 		d2 = w.write_db(ctx.workdir / f'c{wi}_drop', sig_order=order, id_attr=id_attr, drop_sig_of=rng.randrange(n))
 		qs = w.write_query_sigs(ctx.workdir / f'c{wi}_q.gs')
 		out = ctx.workdir / f'c{wi}_drop.csv'
